@@ -308,3 +308,21 @@ Theorem restart_accumulates :
     (2 # 1) * (snd (restart_iter src_restart ss old n0 f nn lb) - lb)
     == (2 # 1) * inject_Z (Z.of_nat f) * nn + inject_Z (Z.of_nat f) * (inject_Z (Z.of_nat f) + 1) * n0.
 Proof. rewrite src_restart_is_model. exact restart_closed_form. Qed.
+
+(* ---------- known finding: the slice sampler after a drop step, noisy mode ---------- *)
+Theorem slice_sampler_after_drop_refuted :
+  exists c m stores,
+    drops_of (rs_handler src_robust) = [(c, m, stores)] /\
+    forall n k, (1 <= k)%nat -> (1 <= n)%nat ->
+      exists st', run_stores stores n k (mkL n n (S2Arr n) (Some n)) = inr st' /\
+                  l_X st' = (n - k)%nat /\ l_tmp st' = Some (n - k)%nat /\
+                  sampler_ok (sampler_sees n st') = false.
+Proof.
+  exists model_drop_cond, model_mask, model_drop_stores. split; [reflexivity |].
+  intros n k Hk Hn. rewrite stores_model.
+  destruct n as [| n']; [inversion Hn |].
+  rewrite !Nat.eqb_refl.
+  eexists. split; [reflexivity |]. split; [reflexivity |]. split; [reflexivity |].
+  unfold sampler_ok, sampler_sees. cbn [snd fst l_tmp].
+  apply Nat.eqb_neq. lia.
+Qed.
